@@ -48,6 +48,11 @@ def introspect():
     t['dtypeCodes'] = [(k, v.value) for k, v in ReprCodeConverter.numpy_dtypes_to_repr_codes.items()]
     t['genericTypes'] = sorted((k.__name__, v.value) for k, v in ReprCodeConverter.generic_types.items())
     t['hcPattern'] = value_checkers.HC_STRING_PATTERN.pattern
+    from dliswriter.logical_record.core.attribute.subtypes import DTimeAttribute
+    t['codeClasses'] = [sorted(c.value for c in ReprCodeConverter.float_codes), sorted(c.value for c in ReprCodeConverter.sint_codes),
+                        sorted(c.value for c in ReprCodeConverter.uint_codes), [c.value for c in ReprCodeConverter.int_codes],
+                        [c.value for c in ReprCodeConverter.numeric_codes]]
+    t['dtimeFormats'] = list(DTimeAttribute.dtime_formats)
     # schema of every set type: (set type, record type, is_eflr, labels in template order)
     sets = []
     for cls in eflr_types.eflr_sets:
@@ -224,6 +229,9 @@ def render(t):
     L.append('def dtypeCodes : List (String × Nat) := ' + lean_list([f'("{n}", {v})' for n, v in t['dtypeCodes']]))
     L.append('def genericTypes : List (String × Nat) := ' + lean_list([f'("{n}", {v})' for n, v in t['genericTypes']]))
     L.append(f'def hcPattern : String := "{t["hcPattern"]}"')
+    L.append('/-- ReprCodeConverter.float_codes / sint_codes / uint_codes (sorted), int_codes, numeric_codes (in order) -/')
+    L.append('def codeClasses : List (List Nat) := ' + lean_list([lean_list([str(x) for x in c]) for c in t['codeClasses']]))
+    L.append('def dtimeFormats : List String := ' + lean_list(['"' + f + '"' for f in t['dtimeFormats']]))
     L.append('/-- (set type, logical record type, explicit flag, template labels) -/')
     L.append('def sets : List (List Nat × Nat × Bool × List (List Nat)) := [')
     rows = []
